@@ -167,15 +167,27 @@ std::string Monitor(const Scenario& sc, bool done) {
   return "";
 }
 
-std::vector<Scenario> AllScenarios() {
+std::vector<Scenario> AllScenarios(bool big) {
   std::vector<Scenario> out;
   const char* prods[] = {"set:val:42", "set:err", "set:exc", "drop"};
   struct F { const char* fin; const char* impl; };
   const F fins[] = {{"attach_inline", "then_inline"}, {"attach_inline", "detach_inline"}, {"attach_exec", "then_exec"},
                     {"attach_exec", "detach_exec"},   {"drop", "dtor"},                  {"drop", "detach"},
                     {"get_move", "get_move"},         {"connect", "connect"}};
-  const std::vector<std::vector<std::string>> pres = {{}, {"ready"}, {"getc"}, {"wait"}, {"ready", "getc", "ready"},
-                                                      {"wait", "ready", "getc"}, {"getc", "wait", "getc"}};
+  std::vector<std::vector<std::string>> pres = {{}, {"ready"}, {"getc"}, {"wait"}, {"ready", "getc", "ready"},
+                                                {"wait", "ready", "getc"}, {"getc", "wait", "getc"}};
+  if (big) {  // every list of up to three non-consuming operations
+    pres.clear();
+    const char* ops[] = {"ready", "getc", "wait"};
+    pres.push_back({});
+    for (auto* a : ops) {
+      pres.push_back({a});
+      for (auto* b : ops) {
+        pres.push_back({a, b});
+        for (auto* c : ops) pres.push_back({a, b, c});
+      }
+    }
+  }
   for (auto* p : prods)
     for (auto& f : fins)
       for (auto& pre : pres) out.push_back(Scenario{p, pre, f.fin, f.impl});
@@ -186,8 +198,11 @@ std::vector<Scenario> AllScenarios() {
 
 int main(int argc, char** argv) {
   auto opt = vx::ParseOptions(argc, argv);
+  bool big = false;
+  for (int i = 1; i < argc; ++i) big = big || std::string(argv[i]) == "--big";
+  if (!opt.only.empty()) big = true;  // a replay may come from either tier
   vx::Explorer ex(opt);
-  for (auto& sc : AllScenarios()) {
+  for (auto& sc : AllScenarios(big)) {
     ex.Run(sc.Header(), [&] { RunScenario(sc); }, [&](bool done) { return Monitor(sc, done); });
   }
   ex.Report();
